@@ -204,7 +204,10 @@ theorem OFO.childSpec_cases (m : OFO) (name : Nat) (hm : m.mode = 0) :
     (∃ e, m.childSpec name = (m, .err e)) ∨
     (∃ c, m.childSpec name = (m, .ok { act := .start, spec := c }) ∧ findName name m.spec = some c ∧ c.pid = 0 ∧ c.disabled = false) := by
   unfold OFO.childSpec
-  simp only [hm, ne_eq, not_true_eq_false, if_false]
+  by_cases hs : m.shutdown = true
+  · exact Or.inl ⟨.strategyActive, by simp [hs]⟩
+  have hcond : ¬ (m.mode ≠ 0 ∨ m.shutdown = true) := by simp [hm, hs]
+  rw [if_neg hcond]
   cases hf : findName name m.spec with
   | none => exact Or.inl ⟨_, rfl⟩
   | some c =>
@@ -242,7 +245,10 @@ theorem OFO.childAddSpec_cases (m : OFO) (name : Nat) (sig : Bool) (hm : m.mode 
       ({ m with i := m.i + 1, spec := m.spec ++ [{ name := name, significant := sig, register := true, i := m.i }] },
        .ok { act := .start, spec := { name := name, significant := sig, register := true, i := m.i } }) := by
   unfold OFO.childAddSpec
-  simp only [hm, ne_eq, not_true_eq_false, if_false]
+  by_cases hs : m.shutdown = true
+  · exact Or.inl ⟨.strategyActive, by simp [hs]⟩
+  have hcond : ¬ (m.mode ≠ 0 ∨ m.shutdown = true) := by simp [hm, hs]
+  rw [if_neg hcond]
   split
   · exact Or.inl ⟨_, rfl⟩
   · split
@@ -334,6 +340,9 @@ theorem updName_const_at (name : Nat) (c d : ChildSpec) (hd : d.name = c.name) (
 theorem OFO.childEnable_good (m : OFO) (name : Nat) (h : OFO.WF m) :
     OFO.WF (m.childEnable name).1 ∧ OFO.GoodRes (m.childEnable name).1 (m.childEnable name).2 := by
   unfold OFO.childEnable
+  by_cases hs : m.shutdown = true
+  · simp only [hs, if_true]; exact ⟨h, by simp [OFO.GoodRes]⟩
+  simp only [hs, Bool.false_eq_true, if_false]
   cases hf : findName name m.spec with
   | none => exact ⟨h, by simp [OFO.GoodRes]⟩
   | some c =>
